@@ -1181,3 +1181,50 @@ def term_contains(t, pred):
                 elif term_contains(x, pred):
                     return True
     return False
+
+
+# --------------------------------------------------------------------------
+# A7: path conditions / decision tables
+
+
+def mandatory_edges(body, target, start=0):
+    """Switch edges (switch_bb, label, succ) that lie on *every* path start ->* target.
+    Their conjunction is a necessary condition for reaching target."""
+    out = []
+    reach = body.reachable(start)
+    if target not in reach:
+        return out
+    for sb in sorted(reach):
+        t = body.term(sb)
+        if not t or t["k"] != "switch" or body.blocks[sb]["cleanup"]:
+            continue
+        edges = body.succ_edges(sb)
+        # group labels by successor
+        by_succ = defaultdict(list)
+        for lab, s in edges:
+            by_succ[s].append(lab)
+        if len(by_succ) < 2:
+            continue
+        for s, labs in by_succ.items():
+            others = [(sb, s2) for s2 in by_succ if s2 != s]
+            # target unreachable if we may only leave sb through edges other than s?  i.e. edge to s is mandatory
+            r = body.reachable(start, removed_edges=[(sb, s)])
+            if target not in r:
+                out.append((sb, tuple(labs), s))
+    return out
+
+
+def conditions(program, body, target, terms=None, start=0):
+    """[(switch_bb, labels, term_of_switch_operand)] necessary for reaching `target`."""
+    T = terms or Terms(program, body)
+    out = []
+    for sb, labs, s in mandatory_edges(body, target, start):
+        t = body.term(sb)
+        term = simplify_term(T.operand(t["op"], sb, "t"))
+        out.append((sb, labs, term))
+    return out
+
+
+def cond_str(c):
+    sb, labs, term = c
+    return "bb%d: %s in {%s}" % (sb, term_str(term), ",".join(labs))
